@@ -25,7 +25,9 @@ type genRns struct {
 
 var rnsNamePool = []string{"a.jkl", "bb.jkl", "ccc.ibc", "dddd.jkl", "eeeee.jkl", "Ffffff.JKL", "long-name.ibc", "x.ibc", "MiXed.jkl", "seven77.jkl",
 	// labels that contain the other TLD, a TLD as label, digits and dashes
-	"ibc.jkl", "jkl.ibc", "xibcx.jkl", "my-jkl-name.ibc", "jkljkl.jkl", "0.jkl"}
+	"ibc.jkl", "jkl.ibc", "xibcx.jkl", "my-jkl-name.ibc", "jkljkl.jkl", "0.jkl",
+	// short labels padded with the other legal characters: the price tier follows the full length (seeded change Y16-B)
+	"a_.jkl", "-b-.ibc", "ab-_.jkl"}
 
 func (g *genRns) Config(rng *Rng, tier string) Config {
 	c := baseConfig(rng)
@@ -674,6 +676,24 @@ func (o *oracleC16) AfterStep(w *World, st *Step, msgs []sdk.Msg, res *abci.Resp
 	if err != nil {
 		w.Violate("C16:registered-unpriceable", "registration of %q succeeded but the price list rejects it: %v", key, err)
 		return
+	}
+	// the yearly price is a function of the label's length (all of it) and the TLD, modelled here
+	// independently of the keeper's helper: 24/12/6/3/1 times the TLD's base price for 1/2/3/4/5+ characters
+	// (seeded change Y16-B altered the helper itself, which the oracle used to trust)
+	mult := int64(1)
+	switch len(parts[0]) {
+	case 1:
+		mult = 24
+	case 2:
+		mult = 12
+	case 3:
+		mult = 6
+	case 4:
+		mult = 3
+	}
+	if base, ok := rnstypes.TLDCost[parts[1]]; ok && cost != base*mult {
+		w.Violate("C16:price≠length-tier", "the chain prices %q at %d per year; a %d-character label under .%s costs %d", key, cost, len(parts[0]), parts[1], base*mult)
+		cost = base * mult
 	}
 	expDebit := sdk.NewInt(cost).MulRaw(years)
 	debit := o.pre.bal.Of(creator, denom).Sub(post.bal.Of(creator, denom))
